@@ -579,7 +579,8 @@ int mp_kronecker(const integer_class &a, const integer_class &n)
     */
 
     if (n == 0) {
-        throw std::runtime_error("second arg of Kronecker cannot be zero");
+        // (a | 0) is 1 for a = 1, -1 and 0 otherwise (as mpz_kronecker gives)
+        return (a == 1 or a == -1) ? 1 : 0;
     }
 
     // Compute (a | u)
